@@ -934,6 +934,14 @@ class Model:
 
         """
         value = self._parameters[name].value if initial_value is None else initial_value
+        # Check all targets first, so a rejected call leaves the model untouched
+        for rxn_name in {} if stoichiometries is None else stoichiometries:
+            if rxn_name not in self._reactions and not any(
+                surrogate.stoichiometries.get(rxn_name)
+                for surrogate in self._surrogates.values()
+            ):
+                msg = f"Reaction '{rxn_name}' not found in reactions or surrogates"
+                raise KeyError(msg)
         self.remove_parameter(name)
         self.add_variable(name, value)
 
@@ -1977,6 +1985,9 @@ class Model:
     @_invalidate_cache
     def update_data(self, name: str, data: pd.Series | pd.DataFrame) -> Self:
         """Update named data set."""
+        if name not in self._data:
+            msg = f"{name!r} not found in data"
+            raise KeyError(msg)
         self._data[name] = data
         return self
 
